@@ -4,10 +4,11 @@ MaxGroups = 1000
 Letters <- LettersAll
 Modes <- ModesAll
 Coords <- CoordsSim
+MCoords <- CoordsSim
 Radii <- RadiiSim
 Rots <- RotsSim
-ExclZ = TRUE
-ExclDeg = TRUE
-ExclZeroL = TRUE
+ExclZ = FALSE
+ExclDeg = FALSE
+ExclZeroL = FALSE
 INVARIANTS InRange Emit
 CHECK_DEADLOCK FALSE
